@@ -370,9 +370,13 @@ def payload_ok(kind, want, got, syntax_only):
     return True
 
 
-def run_program(L, data, evs, root, program, label, mode, info, collect=None):
-    """mode: 'store' | 'syntax'"""
+def run_program(L, data, evs, root, program, label, mode, info, collect=None, omit=()):
+    """mode: 'store' | 'syntax'; omit: callback kinds whose handler member is NULL (not called, parse continues)"""
+    if omit:
+        program = dict((e, a) for e, a in program.items() if evs[e].kind not in omit)
     spec, want_rc, prog, content = simulate(root, program)
+    if omit:
+        spec = [(eid, flag) for eid, flag in spec if evs[eid].kind not in omit]
     state = {'pos': 0, 'problems': []}
 
     def answer_fn(i, kind, payload):
@@ -394,7 +398,7 @@ def run_program(L, data, evs, root, program, label, mode, info, collect=None):
         return TRAVERSE_END
 
     res = parsing.parse(L, data, parsing.make_opts(), 'new' if mode == 'store' else None, 'accept',
-                        handler_answer_fn=answer_fn, syntax=(collect is not None))
+                        handler_answer_fn=answer_fn, syntax=(collect is not None), omit=omit)
     try:
         for k, d in res.problems:
             raise Mismatch(k, d)
@@ -583,6 +587,27 @@ def run_document(ctx, L, n):
                     ctx.add('program_kinds', label + '/' + mode)
                 except Mismatch as m:
                     ctx.violation(m.key, m.detail, dict(index=n, program=describe(p, evs), mode=mode, text=text[:600]))
+        # the same with some handler members left NULL: each kind alone and random subsets; the all-continue parse,
+        # every answer at the last callbacks and at a stride of the others, and the random programs
+        from .. import walker
+        omits = [(k,) for k in walker.KINDS] + [tuple(sorted(rng.sample(walker.KINDS, rng.randint(2, 6)))) for _ in range(3)]
+        for omit in omits:
+            sub = [('all-continue', {})]
+            for i in range(nev):
+                if ctx.tier != 'quick' or i >= nev - 6 or (i + len(omit) + n) % 11 == 0:
+                    for a in ANSWERS:
+                        sub.append(('single:%s:%s' % (evs[i].kind, answer_name(a)), {i: a}))
+            sub += [pp for pp in progs if pp[0] == 'random'][:2]
+            for label, p in sub:
+                mode = 'store' if (len(p) + len(omit) + n) % 3 else 'syntax'
+                ctx.count('programs')
+                ctx.count('programs_with_null_handler_members')
+                try:
+                    lab = 'null-member:' + label.split(':')[0] + ':' + (label.split(':')[2] if label.count(':') >= 2 else '')
+                    run_program(L, data, evs, root, p, lab, mode, info, omit=omit)
+                    ctx.count('programs_agreeing')
+                except Mismatch as m:
+                    ctx.violation(m.key, m.detail, dict(index=n, program=describe(p, evs), mode=mode, null_members=list(omit), text=text[:600]))
         ctx.sample(dict(index=n, callbacks=nev, programs=len(progs), text=text[:200]), 3)
     except Mismatch as m:
         ctx.violation(m.key, m.detail, info)
@@ -622,6 +647,7 @@ def run(env):
             callbacks_in_documents=res.count('callbacks_in_documents'),
             datanames_checked=res.count('datanames_checked'), keywords_checked=res.count('keywords_checked'),
             whitespace_units_checked=res.count('whitespace_units_checked'),
+            programs_run_with_null_handler_members=res.count('programs_with_null_handler_members'),
             categories_assigned_in_loop_start_callbacks=res.count('categories_assigned'),
             documents_whose_assigned_categories_were_all_found_stored=res.count('documents_whose_assigned_categories_were_all_found_stored'),
             category_calls_at_parse_time_observed_not_judged=sorted(res.sets.get('category_calls_at_parse_time', ())),
